@@ -16,7 +16,8 @@ static inline std::vector<int> meas_ports(const SessionSpec &ss, const StdSpec &
     if (ss.type == VNACAL_T16 && !rows) full = true;
     if (ss.type == VNACAL_U16 && rows) full = true;
     std::vector<int> idx;
-    if (full) { for (int p = 0; p < ss.P; ++p) idx.push_back(p); return idx; }
+    // a rectangular VNA measures rows 0..R-1 (detectors) x columns 0..C-1 (driving ports); always in full
+    if (full || ss_rect(ss)) { int n = rows ? ss_rows(ss) : ss_cols(ss); for (int p = 0; p < n; ++p) idx.push_back(p); return idx; }
     for (int p : st.ports) idx.push_back(p - 1);
     std::sort(idx.begin(), idx.end());
     return idx;
@@ -114,6 +115,20 @@ static inline ApplyResult apply_device(Ctx &c, vnacal_t *vcp, int ci, const Sess
     int P = ss.P, nf = (int)fq.size();
     res.s.assign((size_t)nf, Mat(P, P));
     bool ue = is_ue14(ss.type);
+    // A 2x1 (or 1x2) VNA measures a two-port in two passes, the second with the device turned round; the
+    // 2x2 matrix handed to vnacal_apply holds the second pass mirrored: m22 = reflection, m12 / m21 =
+    // transmission of the reversed device (vnacal(3): "a 1x2 or 2x1 calibration can be used with a 2x2
+    // measurement matrix").
+    bool rect = ss_rect(ss);
+    auto measure2 = [&](const Mat &S, double f) -> Mat {
+	if (!rect) return ss.world.measure(S, f);
+	Mat Srev(2, 2);
+	Srev(0, 0) = S(1, 1); Srev(1, 1) = S(0, 0); Srev(0, 1) = S(1, 0); Srev(1, 0) = S(0, 1);
+	Mat M1 = ss.world.measure(S, f), M2 = ss.world.measure(Srev, f), M(2, 2);
+	if (ss_rows(ss) == 2) { M(0, 0) = M1(0, 0); M(1, 0) = M1(1, 0); M(1, 1) = M2(0, 0); M(0, 1) = M2(1, 0); }	// 2x1: column 0 is measured
+	else { M(0, 0) = M1(0, 0); M(0, 1) = M1(0, 1); M(1, 1) = M2(0, 0); M(1, 0) = M2(0, 1); }			// 1x2: row 0 is measured
+	return M;
+    };
     auto one = [&](const std::vector<int> &which) -> int {
 	int n = (int)which.size();
 	MeasBuf m, a, b;
@@ -124,8 +139,12 @@ static inline ApplyResult apply_device(Ctx &c, vnacal_t *vcp, int ci, const Sess
 	    double f = fq[(size_t)which[k]];
 	    fv[k] = f;
 	    Mat S = random_dut(P, dut_seed, f, ss.world.fref);
-	    Mat M = ss.world.measure(S, f);
+	    Mat M = measure2(S, f);
 	    if (!ss.ab) { for (int i = 0; i < P; ++i) for (int j = 0; j < P; ++j) m.at(i, j, k) = toc(M(i, j)); continue; }
+	    if (rect && !ue) {	// one reference reading per pass: a diagonal 'a' matrix
+		for (int j = 0; j < P; ++j) { zc ref = world_a(ss.world, 1, f, 30 + j)(0, 0); for (int i = 0; i < P; ++i) { a.at(i, j, k) = toc(i == j ? ref : zc(0, 0)); b.at(i, j, k) = toc(M(i, j) * ref); } }
+		continue;
+	    }
 	    if (ue) {
 		for (int j = 0; j < P; ++j) { zc ref = world_a(ss.world, 1, f, 20 + j)(0, 0); a.at(0, j, k) = toc(ref); for (int i = 0; i < P; ++i) b.at(i, j, k) = toc(M(i, j) * ref); }
 	    } else {
